@@ -268,7 +268,7 @@ def check(ctx):
                 continue
             v2, f2 = alias_violations(prog, t, sub)
             for node, al, what, tgt in v2:
-                ctx.fail(t, node, f"{what} on '{tgt}', which may alias the caller's {al} (passed by the constructor): the caller's array is modified", construct=f"in-place {what} on alias of {al[0][2:]} in {t.short}")
+                ctx.fail(t, node, f"{what} on '{tgt}', which may alias the caller's {al} (passed by the constructor): the caller's array is modified", construct=f"in-place {what} on alias of {al[0][2:]} in {ctx.fname(t)}")
             if not v2:
                 ctx.ok(t, call, f"{t.short}: no in-place write through {sorted(sub)}")
             # one more level: attributes stored from aliases and mutated in other methods are covered by copies
